@@ -46,7 +46,14 @@ SPEC = Spec(
          "from the derived object; (c) harness xprofiles = the PROFILES exporter (xexporterhelper.NewProfilesExporter / NewProfilesRequestExporter, "
          "own compact runner, same protocol and monitor): memory queue (requests/items, capacity small/large, 1-3 consumers, wait_for_result, "
          "block_on_overflow), sending_queue::batch 3/8, persistent queue with the profiles encoding 1/8, queue-less 1/8, retry, timeout, partial "
-         "failures (xconsumererror), items = samples (id in Sample.Value[0]), 12 corpus cases first.",
+         "failures (xconsumererror), items = samples (id in Sample.Value[0]); widened later: bytes-sized queue+batcher, legacy WithBatcher with/without queue "
+         "and on a persistent queue, persistent queues requests-/items-sized/with either batcher, storage faults at shutdown (failing Set / Close), every "
+         "kind of Shutdown context; 21 corpus cases first (15 = persistent + sending_queue::batch + failing Set). "
+         "(d) SYSTEMATIC family c03SplitN (108 cases, one every 50 indices after the corpus, all inside quick; shared with the C19 exporter harness, one "
+         "every 25): one request split by sending_queue::batch (min=max=2) into 3 parts sharing one refCountDone, backend outcome keyed by the PART "
+         "(ok / always transient / permanent)^3, retry 100ms x1.5 without jitter, max elapsed 300ms (a transient part before the shutdown is given up "
+         "after 3 tries = final failure; in its first back-off at the shutdown = shutdown error; after the stop = shutdown error), Shutdown in the first "
+         "back-off of each transient part in turn or after everything, x {memory + wait_for_result, persistent}; parts run in order (one worker slot).",
     trusted_base=[
         "Lean 4.33.0 kernel; axioms per theorem listed under axioms_per_theorem",
         "translator translators/cmd/c03shape (go/ast): control skeletons (calls, returns, go/defer, if/for conditions, select cases, channel "
@@ -57,6 +64,8 @@ SPEC = Spec(
         "(inlining of the shutdown path, classification of leaf tokens into LTS labels / neutral / unknown)",
         "reflection in the harness (c03Reflect) reads unexported fields of the real exporter object by name (BaseExporter.QueueSender/RetrySender, "
         "QueueBatch.queue/batcher, obsQueue.Queue, asyncQueue.numConsumers/readableQueue, memoryQueue.waitForResult, defaultBatcher.workerPool/timer)",
+        "hand-written model of refCountDone.OnDone / multierr.Append / experr.IsShutdownErr (Model/C03RefCount.lean), appending exactly when the "
+        "regenerated skeleton of OnDone (with the arguments of multierr.Append and of the wrapped Done) has the expected form",
         "hand-written LTS of the queue-less exporter (Model/C03Direct.lean) and the abstract specification Model/C03Spec.lean (AState/AStep: the "
         "statement the refinement theorems are relative to)",
         "hand-written LTS of the shutdown protocol (Model/C03.lean: base_exporter/queue_batch/async_queue/memory_queue/"
